@@ -732,7 +732,7 @@ func runC16(c *Ctx) {
 					if t := TermOf(v); t.Op == "const" && t.Name == "nil" {
 						nOK++
 						fs := append(append([]Fact{}, lf.Facts...), FactsAtInstr(ret)...)
-						if !HasFact(fs, FCmp("==", MCall("gopher-lua.LValue.Type"), MAny())) {
+						if !HasFact(fs, isLuaTableFact) && reachedWithoutTableTest(f, ret) {
 							bad = "a nil error is returned without the result having been checked to be a table (" + p.Pos(ret.Pos()) + ")"
 						}
 						continue
@@ -773,7 +773,7 @@ func runC16(c *Ctx) {
 						continue
 					}
 					nOK++
-					if !HasFact(fs, FCmp("==", MCall("gopher-lua.LValue.Type"), MAny())) {
+					if !HasFact(fs, isLuaTableFact) {
 						bad = "an error that may be nil is returned without the result having been checked to be a table (" + p.Pos(ret.Pos()) + ")"
 					}
 				}
@@ -836,4 +836,25 @@ func uncountedCallbackLoop(f *ssa.Function) ssa.Instruction {
 		}
 	}
 	return nil
+}
+
+// isLuaTableFact: the script result was tested to be a table — by its Type(), or by a checked
+// assertion / type switch to *lua.LTable that succeeded.
+var isLuaTableFact = FOr(FCmp("==", MCall("gopher-lua.LValue.Type"), MAny()), FTrue(func(t *Term) bool {
+	ex, ok := t.V.(*ssa.Extract)
+	if !ok || ex.Index != 1 {
+		return false
+	}
+	ta, ok := ex.Tuple.(*ssa.TypeAssert)
+	return ok && strings.HasSuffix(ta.AssertedType.String(), "gopher-lua.LTable")
+}))
+
+// reachedWithoutTableTest: the single-exit form — the table test does not dominate the success
+// return, but every feasible path to it (branches on the error variable folded with the value it
+// has on the path) crosses the edge on which the result was found to be a table.
+func reachedWithoutTableTest(g *ssa.Function, ret *ssa.Return) bool {
+	hit := WalkCP(Entry(g), nil, func(in ssa.Instruction) bool { return in == ssa.Instruction(ret) }, ReachOpts{CutEdge: func(b *ssa.BasicBlock, k int) bool {
+		return EdgeFactMatches(b, k, isLuaTableFact)
+	}})
+	return len(hit) > 0
 }
